@@ -1,6 +1,7 @@
 import PallasVerif.Proofs.P2PErr
 import PallasVerif.Proofs.P2PResp
 import PallasVerif.Gen.PanicSitesP2P
+import PallasVerif.Proofs.P2PProtoTie
 /-!
 # C29 — P2P behaviours never panic on peer-driven input
 
@@ -244,6 +245,21 @@ def covered (s : String × String × String × String) : Bool :=
 
 /-- every panic site found in the sources on this run has a discharge entry (fail closed) -/
 theorem all_sites_discharged : PallasVerif.Gen.PanicSitesP2P.sites.all covered = true := by decide
+
+/-- the eight protocol machines of the models (`violation` is their rejection) are the `State::apply`
+    functions of the sources: same acceptance and same successor class as the table regenerated from
+    `pallas-network2/src/protocol/*` on this run (lib/translate_fsm.py), for every state and message -/
+theorem protocol_machines_match_source :
+    (∀ s m, (PallasVerif.Gen.FsmN2.handshake.step (HsSt.cls s) (HsMsg.kind m)).next? = (s.apply m).map HsSt.cls) ∧
+    (∀ s m, (PallasVerif.Gen.FsmN2.keepalive.step (KaSt.cls s) (KaMsg.kind m)).next? = (s.apply m).map KaSt.cls) ∧
+    (∀ s m, (PallasVerif.Gen.FsmN2.peersharing.step (PsSt.cls s) (PsMsg.kind m)).next? = (s.apply m).map PsSt.cls) ∧
+    (∀ s m, (PallasVerif.Gen.FsmN2.blockfetch.step (BfSt.cls s) (BfMsg.kind m)).next? = (s.apply m).map BfSt.cls) ∧
+    (∀ s m, (PallasVerif.Gen.FsmN2.chainsync.step (CsSt.cls s) (CsMsg.kind m)).next? = (s.apply m).map CsSt.cls) ∧
+    (∀ s m, (PallasVerif.Gen.FsmN2.txsubmission.step (TxSt.cls s) (TxMsg.kind m)).next? = (s.apply m).map TxSt.cls) ∧
+    (∀ s m, (PallasVerif.Gen.FsmN2.leiosnotify.step (LnSt.cls s) (LnMsg.kind m)).next? = (s.apply m).map LnSt.cls) ∧
+    (∀ s m, (PallasVerif.Gen.FsmN2.leiosfetch.step (LfSt.cls s) (LfMsg.kind m)).next? = (s.apply m).map LfSt.cls) :=
+  ⟨hs_matches_source, ka_matches_source, ps_matches_source, bf_matches_source, cs_matches_source, tx_matches_source,
+   ln_matches_source, lf_matches_source⟩
 
 /-! ## Non-vacuity -/
 
